@@ -1340,6 +1340,8 @@ class Builder:
                         and pending_commands[-3].instruction == GenericInstr.SET  # type: ignore
                         and pending_commands[-2].instruction == GenericInstr.QALLOC  # type: ignore
                         and pending_commands[-1].instruction == GenericInstr.INIT  # type: ignore
+                        # ... and only if it is *this* qubit that was just initialized
+                        and pending_commands[-3].operands[1] == virtual_address  # type: ignore
                     ):
                         # Update the SET command with the new address.
                         pending_commands[-3].operands[1] = new_virtual_address  # type: ignore
